@@ -40,7 +40,7 @@ GROUPS2 = {
         ]),
     # ------------------------------------------------------------------ C11
     'ProofChecks': dict(
-        src=CP, imports=['TonVerif.PyBytes'], ref_imports=[],
+        src=CP, imports=['TonVerif.PyBytes2'], ref_imports=[],
         targets=[
             T('cellTypeMerkleProof', 'CellTypes', None, ('class_attr', 'merkle_proof'), {}, [], ref='3', file='pytoniq_core/boc/exotic.py'),
             T('cellTypeMerkleUpdate', 'CellTypes', None, ('class_attr', 'merkle_update'), {}, [], ref='4', file='pytoniq_core/boc/exotic.py'),
@@ -125,7 +125,7 @@ GROUPS2 = {
         ]),
     # ------------------------------------------------------------------ C14 / C19
     'TlFraming': dict(
-        src='pytoniq_core/tl/generator.py', imports=['TonVerif.PyBytes'], ref_imports=['TonVerif.Model.Tl'],
+        src='pytoniq_core/tl/generator.py', imports=['TonVerif.PyBytes2'], ref_imports=['TonVerif.Model.Tl'],
         targets=[
             # --- serialize_field, bytes / string
             T('tlShortLen', 'TlSchemas', 'serialize_field',
